@@ -515,3 +515,18 @@ def run(index, rep, tier):
                     rep.check(f.name == "_protect_attr", "R02.18", f.qualname, "attribute value escaped beside _protect_attr", fn_where(f, c), "%s is the module's escaping routine" % f.name,
                               "%s calls `%s` directly: the value skips the character-reference step of _protect_attr, so letters outside the declared encoding are written raw - an internal node label `rööt` written to a file and read back in binary mode comes back as `rÃ¶Ã¶t`" % (f.qualname, norm(c)[:60]))
         rep.floor("R02.18", "calls of the saxutils escaping functions in the NeXML writer", 1, n18)
+
+    # ---- R02.19 the rooting token is recognised whatever blanks surround it
+    with rep.section("R02.19"):
+        rep.rule("R02.19", "the rooting token is recognised whatever blanks surround it: in NewickReader._process_tree_comments the comment text that is compared with the rooting tokens (`&R`, `&U`, ...) is a value that went through .strip() - `[&R ]` and `[ &R]` are rooting comments too, and a rooted tree read as 'rooting undefined' is afterwards treated as unrooted (its basal bifurcation collapsed, its splits normalised), which changes every distance computed from it")
+        ptc = index.function("dendropy.dataio.newickreader.NewickReader._process_tree_comments")
+        stripped = {t.id for a in ast.walk(ptc.node) if isinstance(a, ast.Assign) and isinstance(a.value, ast.Call) and call_name(a.value) in ("strip", "lstrip", "rstrip") for t in a.targets if isinstance(t, ast.Name)}
+        n19 = 0
+        for x in ast.walk(ptc.node):
+            if isinstance(x, ast.Compare) and len(x.ops) == 1 and isinstance(x.ops[0], (ast.In, ast.Eq)) and any(isinstance(c, ast.Constant) and isinstance(c.value, str) and c.value.lower() in ("&r", "&u") for c in ast.walk(x.comparators[0])):
+                n19 += 1
+                l_ = x.left
+                ok19 = (isinstance(l_, ast.Name) and l_.id in stripped) or (isinstance(l_, ast.Call) and call_name(l_) in ("strip", "upper", "lower") and "strip" in norm(l_))
+                rep.check(ok19, "R02.19", ptc.qualname, "rooting token compared on the unstripped comment", fn_where(ptc, x), "_process_tree_comments compares the stripped comment with the rooting tokens",
+                          "NewickReader._process_tree_comments tests `%s`: the left side never went through strip(), so `[&R ]` / `[ &R]` are not recognised - the tree comes back with is_rooted None, is compared as if unrooted, and `((A,B),(C,D))` vs `(A,(B,(C,D)))` read from such text have symmetric difference 0 instead of 2" % norm(x)[:60])
+        rep.floor("R02.19", "comparisons of a comment with the rooting tokens", 1, n19)
